@@ -100,7 +100,8 @@ pub fn norm_path(p: &str) -> String {
         while j < b.len() && (b[j].is_ascii_hexdigit() || b[j] == b'-') {
             j += 1;
         }
-        if j - i >= 20 {
+        let looks_random = b[i..j].iter().any(|c| c.is_ascii_alphabetic() || *c == b'-');
+        if j - i >= 20 && looks_random {
             out.push('U');
             i = j;
         } else if j > i {
